@@ -3,7 +3,7 @@
    pair (label, its Python class is an integer type).  M_* model static_frame/core/index.py. *)
 Require Import SF.Prelude SF.Value SF.PySlice SF.IndexBij SF.IndexBijVal SF.IxTree SF.IxTreeVal
   Proofs.IndexBijFacts Proofs.IndexBijMain Proofs.IndexBijGO Proofs.IndexBijDerive Proofs.IndexBijVal
-  Proofs.IxTreeIns Proofs.IxTreeBuild Proofs.IxTreeLookup Proofs.IxTreeVal.
+  Proofs.IxTreeIns Proofs.IxTreeBuild Proofs.IxTreeLookup Proofs.IxTreeOrder Proofs.IxTreeVal.
 
 (* Index(labels), observed through values / iteration / reversed / len / positions / iloc / loc_to_iloc
    / `in` for ANY probe keys, is exactly the specification "the index is the label list" -- including
@@ -116,3 +116,20 @@ Theorem C02_derive_roll : forall (l : list val) (shift : Z), NoDup l ->
   Permutation l (S_roll l shift) /\ length (S_roll l shift) = length l.
 Proof. exact v_derive_roll. Qed.
 Print Assumptions C02_derive_roll.
+
+(* the acceptance test of the hierarchical specification, read declaratively: the table is "a tree in
+   the given order" iff labels sharing a proper prefix are contiguous (between two rows that agree on
+   their first p components every row agrees with them on those components) *)
+Theorem C02_tree_order_is_contiguity : forall (d : nat) (labs : list (list val)),
+  Forall (fun x => length x = d) labs ->
+  (tree_ordered val_eqb d labs = true <-> contiguous val d labs).
+Proof. exact v_tree_ordered_contiguous. Qed.
+Print Assumptions C02_tree_order_is_contiguity.
+
+(* Index(labels, dtype=d): the map is built from the labels as given, the values from the converted
+   labels; when the conversion changes no label (under Python equality) the index is the specification
+   index (otherwise: Refuted/C02.v, finding C02-init-dtype-map-mismatch) *)
+Theorem C02_index_dtype_refines : forall (l : list val) (probes : list (key val)),
+  M_index_dtype val_eqb vto_Z l l probes = S_index val_eqb l probes.
+Proof. exact v_index_dtype_refines. Qed.
+Print Assumptions C02_index_dtype_refines.
